@@ -229,6 +229,25 @@ def run(F, R, tier):
     sl_callers = G.callers(KK + "store_local_key")
     R.check(sl_callers <= {KK + "store_key", KK + "fetch_key"}, "C12.R4", "C12.R4:callers:store_local_key", "-",
             "store_local_key is called only from store_key", "callers of store_local_key: %s" % sorted(sl_callers))
+    # the store path must not be able to (re)create the key directory: only poll_secure_channel_status creates it, followed by the ACL
+    from lib import sympath
+    S = sympath.Sym(F, ["azure_proxy_agent", "proxy_agent_shared"])
+    effs = S.effects(KK + "store_local_key")
+    mk = [(e[0], sorted(map(str, e[1][0])), e[2]) for e in effs if e[0] in ("create_dir_all", "create_dir") and
+          not any(c.startswith("proxy_agent_shared::logger::") for c in (e[4] if len(e) > 4 else ()))]
+    kinds = sorted({e[0] for e in effs if not any(c.startswith("proxy_agent_shared::logger::") for c in (e[4] if len(e) > 4 else ()))})
+    R.check(not mk and "rename" in kinds, "C12.R4", "C12.R4:%sstore_local_key:no-directory-creation" % KK, "-",
+            "the key store path performs %s and never creates a directory: the key directory exists only as created and restricted "
+            "by poll_secure_channel_status" % kinds,
+            "the key store path can create the key directory itself (%s): a missing directory is re-created with default permissions "
+            "and the key file is written into it without acl_directory" % mk)
+    if ps:
+        Bp = mir.Body(ps, F)
+        mkd = Bp.calls_named("misc_helpers::try_create_folder")
+        aclc = Bp.calls_named("acl::linux_acl::acl_directory", "acl::acl_directory")
+        okm = bool(mkd) and bool(aclc) and all(Bp.path([c[0]], [x[0] for x in Bp.calls_named("KeyKeeper::loop_poll")], cut_blocks=[a[0] for a in aclc]) is None for c in mkd)
+        R.check(okm, "C12.R4", "C12.R4:%s:create-then-acl" % ps["id"], "-",
+                "poll_secure_channel_status creates the key directory and restricts it before the poll loop can start")
     acl_fn = R.anchor(AP + "acl::linux_acl::acl_directory", "C12.R4")
     if acl_fn:
         B = mir.Body(acl_fn, F)
